@@ -80,8 +80,14 @@ def gecko_rule(F, rep):
           and "w.write_u8((io::slippi::de::Event::GeckoCodes as u8))?" in t and "pos AddAssign= 512" in t and "w.write_u8(std::convert::From::from((pos Ge actual_size)))?" in t)
     rep.ob("gecko.re-emit", ok, "io::slippi::ser::gecko_codes", "block", "the writer must re-emit 512-byte blocks with size min(512, actual - pos), the wrapped code and the final flag")
     b2, m, arms = events.find_dispatch(F)
-    g = tir.pretty(arms["GeckoCodes"]["body"])
-    rep.ob("gecko.stored", "bytes: buf.to_vec()" in g and "actual_size: state.split_accumulator.actual_size" in g, events.PARSE_EVENT + "#GeckoCodes", "store", "the assembled blob and its actual size must be stored unchanged")
+    ok = False
+    for x in tir.walk(arms["GeckoCodes"]["body"]):
+        if x.get("k") == "Struct" and (x.get("path") or "") == "game::GeckoCodes":
+            f = {y["name"]: strip(y["e"]) for y in x["fields"]}
+            bsrc = f.get("bytes", {})
+            blob = bsrc.get("k") == "MethodCall" and bsrc["method"] in ("to_vec", "clone") and (strip(bsrc["recv"]).get("ty") or "").endswith("Vec<u8>") and strip(bsrc["recv"]).get("res") == "local"
+            ok = blob and (tir.place(f.get("actual_size", {})) or "").endswith("split_accumulator.actual_size")
+    rep.ob("gecko.stored", ok, events.PARSE_EVENT + "#GeckoCodes", "store", "the assembled blob and its actual size must be stored unchanged")
     # double_game_end: set in one place, consumed by raw_size and write
     setters, users = [], []
     for fb in F.fn_bodies():
